@@ -36,9 +36,11 @@ Admitted(fs) ==
         /\ (fs[i].sfx = "") = (fs[j].sfx = "")                    \* either every overload is named or none
         /\ (fs[i].dsfx # <<>> => fs[j].sfx # "" ) /\ (fs[j].dsfx # <<>> => fs[i].sfx # "")
 
+\* choices that are admitted on their own (keeps the list construction below TLC's set-size limit)
+Choices1 == {c \in Choices : Admitted(<<c>>)}
 RECURSIVE Lists(_)
 Lists(n) == IF n = 0 THEN {<<>>} ELSE LET P == Lists(n - 1) IN
-            P \cup {Append(p, c) : p \in {q \in P : Len(q) = n - 1}, c \in Choices}
+            P \cup {Append(p, c) : p \in {q \in P : Len(q) = n - 1}, c \in Choices1}
 
 Init == \E fs \in Lists(MaxFuncs) : fs # <<>> /\ Admitted(fs) /\ NInit(fs)
                /\ Cardinality(LET F == fs IN
